@@ -119,13 +119,17 @@ def run_driver(lines: list[str], timeout=3600) -> list:
     for o, l in zip(out, lines):
         v = dec(o)
         if isinstance(v, Atom) and v.startswith('bad-op'):
-            raise InfraError(f'driver rejected request {l[:200]!r}: {v}')
+            raise DriverRejected(f'driver rejected request {l[:200]!r}: {v}')
         res.append(v)
     return res
 
 
 class InfraError(Exception):
     pass
+
+
+class DriverRejected(InfraError):
+    """the model driver could not parse a request – built, as a rule, from what the implementation returned"""
 
 
 # ---------------------------------------------------------------------------------------------
